@@ -139,8 +139,9 @@ class LogCap(logging.Handler):
 class Driver:
     """the real server on simnet + a tracker of gated start-ups (derived from the real side only)"""
 
-    def __init__(self, net, ports):
+    def __init__(self, net, ports, ipv6=False):
         self.net = net
+        self.ipv6 = bool(ipv6)  # the server listens on ::1: passive listeners are AF_INET6 sockets
         self.ports = list(ports)
         self.new_gates = []
         self.raws = []
@@ -150,7 +151,7 @@ class Driver:
         self.snaps = []  # real snapshots, one per action
         self.actions = []
         self.notes = []  # (key suffix, text): oracle failures other than the multiset equation, per action
-        self.excused = []  # ports whose loss by the current action falls under a known-finding key
+        self.causes = []  # per action: (cause, ports) - the ports whose loss by this action falls under a known-finding key
 
     async def start(self):
         net = self.net
@@ -165,7 +166,7 @@ class Driver:
 
         net.bind_gate = gate
         self.server = aioftp.Server(None, data_ports=self.ports, path_io_factory=aioftp.MemoryPathIO)
-        await self.server.start("127.0.0.1", CTRL)
+        await self.server.start("::1" if self.ipv6 else "127.0.0.1", CTRL)
 
     # -- observation of the real objects
     def conn_of(self, raw):
@@ -278,7 +279,7 @@ class Driver:
             self.events.append([PCONNECT, 0, 0, 0])
         elif kind == "pasv":
             i = a[1]
-            self.events.append([PASV, i, 0, 0])
+            self.events.append([PASV, i, 1 if a[2] == "PASV" else 0, 0])
             if self.live(i):
                 others = [e["stage"] for e in self.inflight[i]]
                 oports = [e["port"] for e in self.inflight[i]]
@@ -293,8 +294,7 @@ class Driver:
                 if not self.live(i):
                     # 421: the session ended; start-ups still in flight were cancelled by the finally block
                     if others:
-                        cause = "cancel-at-2" if 2 in others else "cancel-at-1"
-                        self.excused = oports
+                        self.causes.append(("cancel-at-2" if 2 in others else "cancel-at-1", oports))
                     self.inflight[i] = []
         elif kind == "resume":
             i, k, o = a[1], a[2], a[3]
@@ -313,8 +313,7 @@ class Driver:
                 else:
                     c = self.conn_of(self.raws[i])
                     if c is not None and self.passive_port(c) is not None:
-                        cause = "overlap"
-                        self.excused = [self.passive_port(c)]  # the listener about to be overwritten
+                        self.causes.append(("overlap", [self.passive_port(c)]))  # the listener about to be overwritten
                 others = [x["stage"] for j, x in enumerate(self.inflight[i]) if j != k]
                 oports = [x["port"] for j, x in enumerate(self.inflight[i]) if j != k]
                 c0 = self.conn_of(self.raws[i])
@@ -326,8 +325,7 @@ class Driver:
                     self.check_421(i, e.get("tried", [e["port"]]) + own)  # `own`: returned by the session's own end
                 if not self.live(i):
                     if others:  # the session died (421 / OSError): its other start-ups were cancelled
-                        cause = "cancel-at-2" if 2 in others else "cancel-at-1"
-                        self.excused = oports
+                        self.causes.append(("cancel-at-2" if 2 in others else "cancel-at-1", oports))
                     self.inflight[i] = []
                 elif new:
                     new[0]["tried"] = e.get("tried", [e["port"]]) + ([new[0]["port"]] if new[0]["stage"] == 1 else [])
@@ -357,8 +355,7 @@ class Driver:
             if self.live(i):
                 stages = [e["stage"] for e in self.inflight[i]]
                 if stages:
-                    cause = "cancel-at-2" if 2 in stages else "cancel-at-1"
-                    self.excused = [e["port"] for e in self.inflight[i]]
+                    self.causes.append(("cancel-at-2" if 2 in stages else "cancel-at-1", [e["port"] for e in self.inflight[i]]))
                 if how == "quit":
                     self.raws[i].writer.write(b"QUIT\r\n")
                 elif how == "drop":
@@ -372,8 +369,7 @@ class Driver:
             self.events.append([CLOSEALL, 0, 0, 0])
             stages = [e["stage"] for i in range(len(self.raws)) if self.live(i) for e in self.inflight[i]]
             if stages:
-                cause = "cancel-at-2" if 2 in stages else "cancel-at-1"
-                self.excused = [e["port"] for i in range(len(self.raws)) if self.live(i) for e in self.inflight[i]]
+                self.causes.append(("cancel-at-2" if 2 in stages else "cancel-at-1", [e["port"] for i in range(len(self.raws)) if self.live(i) for e in self.inflight[i]]))
             await self.server.close()
             self.closed = True
             await self.settle_and_collect()
@@ -386,9 +382,9 @@ class Driver:
         obs["codes"] = ["227" if c == "229" else c for c in codes]
         obs["missing"] = sorted(missing.elements())
         obs["extra"] = sorted(extra.elements())
-        obs["cause"] = cause
-        obs["excused"] = sorted(self.excused)
-        self.excused = []
+        obs["causes"] = [(c, sorted(ps)) for (c, ps) in self.causes]
+        obs["cause"] = self.causes[0][0] if self.causes else None
+        self.causes = []
         obs["notes"] = self.notes
         self.notes = []
         self.actions.append(list(a))
@@ -404,7 +400,7 @@ class Driver:
             await self.apply(("close",))
 
 
-def run_history(ports, chooser):
+def run_history(ports, chooser, ipv6=False):
     """chooser(driver) -> next action or None; returns the driver (events, snapshots, actions)"""
     cap = LogCap()
     lg = logging.getLogger("aioftp.server")
@@ -415,7 +411,7 @@ def run_history(ports, chooser):
 
     async def main(net):
         net.loop.set_exception_handler(lambda loop, c: None)
-        d = Driver(net, ports)
+        d = Driver(net, ports, ipv6)
         box["d"] = d
         await d.start()
         while len(d.actions) < MAX_ACTIONS:
@@ -473,13 +469,53 @@ def disagree(ctx, *a):
         ctx.count("disagreements_not_recorded", 1)
 
 
+def oracle_findings(d):
+    """the property oracle on the real snapshots of one run (no model involved): [(action index, key, text)].
+    Anything newly lost, duplicated or orphaned by an action; a known-finding key covers exactly the ports of the
+    start-ups the action cancelled (F5) or the listener it overwrote (F5b); any other port lost by the same action
+    is reported under the generic key `c11-lost-<action>`, which is not listed."""
+    out = []
+    prev_missing = collections.Counter()
+    prev_orphans = []
+    for k, real in enumerate(d.snaps):
+        missing = collections.Counter(real["missing"])
+        newly = missing - prev_missing
+        new_orph = [p for p in real["orphans"] if p not in prev_orphans]
+        if real["extra"]:
+            out.append((k, "c11-duplicated",
+                        f"port(s) {real['extra']} duplicated / foreign (pool + live sessions hold more than configured; pool {real['pool']}, "
+                        f"configured {d.ports}) after {d.actions[: k + 1]}"))
+        if newly or new_orph:
+            # one action can do both: a completing start-up overwrites a listener (F5b) and, answering 503 on IPv6,
+            # ends the session, which cancels the remaining start-ups (F5)
+            other_lost = newly
+            other_orph = list(new_orph)
+            for cause, ports in real.get("causes", []):
+                excused = collections.Counter(ports)
+                mine_lost = other_lost & excused
+                mine_orph = [p for p in other_orph if p in excused]
+                if cause in KEY_OF_CAUSE and (mine_lost or mine_orph):
+                    out.append((k, KEY_OF_CAUSE[cause],
+                                f"port(s) {sorted(mine_lost.elements())} lost, listener(s) {mine_orph} orphaned "
+                                f"by action {d.actions[k]} ({cause}; pool {real['pool']}, configured {d.ports}) after {d.actions[: k + 1]}"))
+                other_lost = other_lost - excused
+                other_orph = [p for p in other_orph if p not in excused]
+            if other_lost or other_orph:
+                out.append((k, "c11-lost-" + str(d.actions[k][0]),
+                            f"port(s) {sorted(other_lost.elements())} lost, listener(s) {other_orph} orphaned by action {d.actions[k]} "
+                            f"(pool {real['pool']}, configured {d.ports}) after {d.actions[: k + 1]}"))
+        for kind, text in real.get("notes", []):
+            out.append((k, "c11-" + kind, f"{text} after {d.actions[: k + 1]}"))
+        prev_missing = missing
+        prev_orphans = list(real["orphans"])
+    return out
+
+
 def check_driver(ctx, d, msnaps, stream):
     """compare the real snapshots with the model's, evaluate the oracle; returns True when all agree"""
     ctx.traces_impl += 1
     ok = True
-    prev_missing = collections.Counter()
-    prev_orphans = []
-    replay = {"ports": d.ports, "actions": d.actions}
+    replay = {"ports": d.ports, "ipv6": d.ipv6, "actions": d.actions}
     for k, (real, ms) in enumerate(zip(d.snaps, msnaps)):
         mv = model_view(ms)
         ctx.case((stream, tuple(d.ports), json.dumps(d.actions[: k + 1])))
@@ -492,41 +528,9 @@ def check_driver(ctx, d, msnaps, stream):
         if sorted(real["missing"]) != mv["lost"]:
             ok = False
             disagree(ctx, stream + "-lost", {"ports": d.ports, "actions": d.actions[: k + 1]}, repr(mv["lost"]), repr(real["missing"]))
-        # property oracle on the real objects: anything newly lost, duplicated or orphaned by this action?
-        missing = collections.Counter(real["missing"])
-        newly = missing - prev_missing
-        new_orph = [p for p in real["orphans"] if p not in prev_orphans]
-        if real["extra"]:
-            ok = False
-            ctx.violation(
-                f"port(s) {real['extra']} duplicated (pool + live sessions hold more than configured) after {d.actions[: k + 1]}",
-                dict(replay, key="c11-duplicated", upto=k + 1),
-            )
-        if newly or new_orph:
-            ok = False
-            # a known-finding key covers exactly the ports of the start-ups this action cancelled (F5) or
-            # the listener it overwrote (F5b); any other port lost by the same action is reported under
-            # the generic key, which is not listed
-            excused = collections.Counter(real.get("excused", []))
-            other_lost = newly - excused
-            other_orph = [p for p in new_orph if p not in excused]
-            if real["cause"] in KEY_OF_CAUSE and (newly & excused or [p for p in new_orph if p in excused]):
-                ctx.violation(
-                    f"port(s) {sorted((newly & excused).elements())} lost, listener(s) {[p for p in new_orph if p in excused]} orphaned "
-                    f"by action {d.actions[k]} ({real['cause']}; pool {real['pool']}, configured {d.ports}) after {d.actions[: k + 1]}",
-                    dict(replay, key=KEY_OF_CAUSE[real["cause"]], upto=k + 1),
-                )
-            if other_lost or other_orph:
-                ctx.violation(
-                    f"port(s) {sorted(other_lost.elements())} lost, listener(s) {other_orph} orphaned by action {d.actions[k]} "
-                    f"(pool {real['pool']}, configured {d.ports}) after {d.actions[: k + 1]}",
-                    dict(replay, key="c11-lost-" + str(d.actions[k][0]), upto=k + 1),
-                )
-        for kind, text in real.get("notes", []):
-            ok = False
-            ctx.violation(f"{text} after {d.actions[: k + 1]}", dict(replay, key="c11-" + kind, upto=k + 1))
-        prev_missing = missing
-        prev_orphans = list(real["orphans"])
+    for k, key, text in oracle_findings(d):
+        ok = False
+        ctx.violation(text, dict(replay, key=key, upto=k + 1))
     if len(msnaps) != len(d.snaps):
         ok = False
         disagree(ctx, stream, {"ports": d.ports, "actions": d.actions}, f"{len(msnaps)} snapshots", f"{len(d.snaps)} snapshots")
@@ -538,7 +542,7 @@ def check_driver(ctx, d, msnaps, stream):
 
 
 # ----------------------------------------------------------------------------- generators
-def exhaustive_dfs(ports, max_sessions, depth, budget):
+def exhaustive_dfs(ports, max_sessions, depth, budget, ipv6=False):
     """every action sequence up to `depth` (valid actions as the real tracker reports them);
     each node is one fresh run of the real server.  Returns the drivers of the maximal runs."""
     out = []
@@ -553,7 +557,7 @@ def exhaustive_dfs(ports, max_sessions, depth, budget):
             box["valid"] = d.valid_actions(max_sessions, rich=False)
             return None
 
-        d = run_history(ports, chooser)
+        d = run_history(ports, chooser, ipv6)
         return d, box.get("valid", [])
 
     def rec(prefix):
@@ -584,7 +588,7 @@ def fault_outcome(fault, attempt):
     return "ok"
 
 
-def systematic(nports, nsess, faults, cancel, overlapped, end_mode):
+def systematic(nports, nsess, faults, cancel, overlapped, end_mode, all_epsv=False):
     """sessions connect and issue PASV; their start-ups are resumed with the scripted outcome per port and
     attempt, sequentially or round-robin; `cancel` = (session, stage, how) ends that session when its
     start-up is first seen at that stage; then a second PASV (reuse), a transfer, and everybody leaves"""
@@ -610,7 +614,7 @@ def systematic(nports, nsess, faults, cancel, overlapped, end_mode):
         if state["queue"] is None:
             q = []
             if overlapped:
-                q += [("connect",)] * nsess + [("pasv", i, "PASV" if i % 2 == 0 else "EPSV") for i in range(nsess)]
+                q += [("connect",)] * nsess + [("pasv", i, "PASV" if (i % 2 == 0 and not all_epsv) else "EPSV") for i in range(nsess)]
             state["queue"] = q
             state["next_seq"] = 0
         if state["queue"]:
@@ -628,7 +632,7 @@ def systematic(nports, nsess, faults, cancel, overlapped, end_mode):
         if not overlapped and state["next_seq"] < nsess and not d.closed:
             i = state["next_seq"]
             state["next_seq"] += 1
-            state["queue"] = [("connect",), ("pasv", i, "PASV" if i % 2 == 0 else "EPSV")]
+            state["queue"] = [("connect",), ("pasv", i, "PASV" if (i % 2 == 0 and not all_epsv) else "EPSV")]
             return chooser(d)
         if state.get("tail") is None:
             tail = []
@@ -703,7 +707,9 @@ def correspondence(ctx, budget=None):
         "server.close(); streams: (a) exhaustive DFS over valid actions (tracker on the real objects) for small pools, (b) systematic: "
         "pools of 0..3 ports x 1..3 sessions x per-port fault (free, busy once, always busy, other OSError once) x cancel point "
         "(none | session j at suspension point 1|2 by QUIT/EOF/close) x sequential/round-robin start-ups x end mode, followed by a "
-        "second PASV, a LIST transfer and everybody leaving, (c) random walks over 3 sessions / 1-3 ports incl. a duplicated port; "
+        "second PASV, a LIST transfer and everybody leaving; the same scripts on an IPv6 listener (::1: PASV opens and stores the "
+        "listener, then answers 503 and ends the session; first commands mixed PASV/EPSV or all EPSV) and exhaustive DFS on IPv6, "
+        "(c) random walks (a quarter of them on IPv6) over 3 sessions / 1-3 ports incl. a duplicated port; "
         "one evaluation = one (pool, history prefix): pool contents with priorities, listener per session, start-ups in flight, "
         "orphan listeners, reply codes compared with the model + the multiset equation on the real objects; non-trivial = distinct."
     )
@@ -713,20 +719,22 @@ def correspondence(ctx, budget=None):
     drivers = []  # (stream, driver)
 
     # (a) exhaustive
-    ex = [([30001], 2, 6, 700), ([30001, 30002], 1, 7, 700), ([30001, 30002], 2, 5, 900)]
+    ex = [([30001], 2, 6, 700, False), ([30001, 30002], 1, 7, 700, False), ([30001, 30002], 2, 5, 900, False),
+          ([30001, 30002], 1, 6, 500, True), ([30001], 2, 5, 400, True)]
     if thorough:
-        ex = [([30001], 2, 8, 6000), ([30001, 30002], 2, 7, 12000), ([30001, 30002, 30003], 2, 6, 8000), ([], 2, 4, 200)]
+        ex = [([30001], 2, 8, 6000, False), ([30001, 30002], 2, 7, 12000, False), ([30001, 30002, 30003], 2, 6, 8000, False),
+              ([], 2, 4, 200, False), ([30001, 30002], 2, 6, 3000, True), ([30001], 2, 7, 1500, True)]
     n_ex = 0
-    for ports, ms, depth, bud in ex:
-        for d in exhaustive_dfs(ports, ms, depth, bud):
-            drivers.append(("exhaustive", d))
+    for ports, ms, depth, bud, v6 in ex:
+        for d in exhaustive_dfs(ports, ms, depth, bud, v6):
+            drivers.append(("exhaustive-ipv6" if v6 else "exhaustive", d))
             n_ex += 1
     ctx.count("exhaustive_histories", n_ex)
 
     # (b) systematic
     import itertools
 
-    n_sys = 0
+    n_sys = n_sys6 = 0
     for nports in (0, 1, 2, 3):
         fsets = list(itertools.product(FAULTS, repeat=nports))
         if nports == 3 and not thorough:
@@ -744,21 +752,30 @@ def correspondence(ctx, budget=None):
                         ports, ch = systematic(nports, nsess, faults, cancel, overlapped, end_mode)
                         drivers.append(("systematic", run_history(ports, ch)))
                         n_sys += 1
+                        # the same script on an IPv6 listener (PASV there: listener opened, then 503 and the session
+                        # ends), with the first commands mixed PASV/EPSV or all EPSV (the later PASV meets a listener)
+                        if nports in (1, 2) and (thorough or nsess <= 2 or cancel is None):
+                            for all_epsv in (False, True):
+                                ports, ch = systematic(nports, nsess, faults, cancel, overlapped, end_mode, all_epsv)
+                                drivers.append(("systematic-ipv6", run_history(ports, ch, ipv6=True)))
+                                n_sys6 += 1
     ctx.count("systematic_histories", n_sys)
+    ctx.count("systematic_ipv6_histories", n_sys6)
 
     # (c) random
     n_rand = budget or (8000 if thorough else 900)
     pools = [[30001], [30001, 30002], [30001, 30002, 30003], [30001, 30001], [30002, 30001, 30002], []]
     for _ in range(n_rand):
         ports = rng.choice(pools[:3]) if rng.random() < 0.8 else rng.choice(pools)
-        d = run_history(ports, random_chooser(rng, 3, rng.randint(5, 22)))
-        drivers.append(("random", d))
+        v6 = rng.random() < 0.25
+        d = run_history(ports, random_chooser(rng, 3, rng.randint(5, 22)), ipv6=v6)
+        drivers.append(("random-ipv6" if v6 else "random", d))
     ctx.count("random_histories", n_rand)
 
     # model in one batch
     gb, rc = flags_from_gen()
     ctx.extra["source_shape"] = {"giveback_on_cancel": gb, "recheck_after_startup": rc}
-    cases = [(0, [[d.ports, hier, list(fin), True, gb, rc], d.events]) for _, d in drivers]
+    cases = [(0, [[d.ports, hier, list(fin), True, gb, rc, d.ipv6], d.events]) for _, d in drivers]
     mres = ctx.model(cases)
     qres = ctx.model([(2, c[1]) for c in cases])
     kinds = collections.Counter()
@@ -775,12 +792,12 @@ def correspondence(ctx, budget=None):
             if lost_any:
                 ctx.violation(
                     f"quiet history (no cancellation inside a start-up, no overlapping start-ups) lost a port: {d.actions}",
-                    {"key": "c11-quiet-lost", "ports": d.ports, "actions": d.actions},
+                    {"key": "c11-quiet-lost", "ports": d.ports, "ipv6": d.ipv6, "actions": d.actions},
                 )
         if len(xcheck) < 30 and len(d.events) < 12 and stream != "exhaustive":
             xcheck.append((0, case[1], ms))
-        if stream == "random":
-            ctx.sample({"ports": d.ports, "actions": d.actions})
+        if stream.startswith("random"):
+            ctx.sample({"ports": d.ports, "ipv6": d.ipv6, "actions": d.actions})
         if len(ctx.violations) > 20:
             break
     for k, v in sorted(kinds.items()):
@@ -895,15 +912,18 @@ def replay(ctx, data):
     # about THAT action (later actions of the same history may hit a listed finding); a witness file has no `upto`
     upto = r.get("upto")
     actions = [tuple(a) for a in r["actions"]]
-    d = run_history(r["ports"], scripted(actions[:upto] if upto else actions))
-    bad = False
-    prev = {"missing": [], "extra": [], "orphans": []}
-    for k, (a, s) in enumerate(zip(d.actions, d.snaps)):
-        print(f"after {a}: pool={s['pool']} sessions={s['sessions']} orphans={s['orphans']} missing={s['missing']} extra={s['extra']}")
-        changed = any(collections.Counter(s[x]) - collections.Counter(prev[x]) for x in ("missing", "extra", "orphans")) or bool(s.get("notes"))
-        if s.get("notes"):
-            print("   oracle:", s["notes"])
-        if changed and (upto is None or k == upto - 1):
-            bad = True
-        prev = s
-    return not bad
+    d = run_history(r["ports"], scripted(actions[:upto] if upto else actions), ipv6=bool(r.get("ipv6")))
+    want = r.get("key")
+    for a, sn in zip(d.actions, d.snaps):
+        print(f"after {a}: pool={sn['pool']} sessions={sn['sessions']} orphans={sn['orphans']} missing={sn['missing']} extra={sn['extra']}")
+    found = oracle_findings(d)
+    for k, key, text in found:
+        print("ORACLE", key, text)
+    # the verdict is about the recorded action and the recorded key (the same action may also hit a listed finding)
+    if want == "c11-quiet-lost":
+        # recorded by the correspondence for a whole history that the model calls quiet (no cancellation inside a
+        # start-up, no overlap): on such a history ANY loss / duplicate / orphan is the violation
+        hits = [(k, key) for (k, key, _) in found]
+    else:
+        hits = [(k, key) for (k, key, _) in found if (upto is None or k == upto - 1) and (want is None or key == want)]
+    return not hits
